@@ -369,6 +369,10 @@ def inline_single_defs(expr, fd, depth=2, any_value=False):
                 if isinstance(x, ast.Name):
                     defs.setdefault(x.id, []).extend([None, None])
     params = {a.arg for a in fd.args.args} if isinstance(fd, (ast.FunctionDef, ast.AsyncFunctionDef)) else set()
+    # the same expression bound in several places (block-scoped `let x = e` repeated in two arms) is one definition
+    for k, vs in list(defs.items()):
+        if len(vs) > 1 and all(v is not None for v in vs) and len({ast.dump(v) for v in vs}) == 1:
+            defs[k] = vs[:1]
 
     def pure(v):
         if any_value:
